@@ -238,6 +238,12 @@ def mutate_sibling(rng, doc):
             for k in ('cross section depths', 'semi-major axis', 'eccentricity', 'rotation angles'):
                 if isinstance(f.get(k), list) and len(f[k]) >= 2:
                     cands.append((f, k, 'plume', None))
+        if ft == 'subducting plate':
+            for mo in f.get('temperature models', []) or []:
+                if isinstance(mo, dict) and isinstance(mo.get('ridge coordinates'), list) and isinstance(mo.get('spreading velocity'), (int, float)):
+                    npts = sum(len(r) for r in mo['ridge coordinates'] if isinstance(r, list))
+                    if npts >= 2:
+                        cands.append((mo, 'spreading velocity', mo.get('model'), npts))
         if ft not in ('continental plate', 'oceanic plate', 'mantle layer', 'plume'):
             continue
         for kk, v in f.items():
@@ -249,6 +255,10 @@ def mutate_sibling(rng, doc):
                         for k in ('depths', 'centerline temperatures', 'gaussian sigmas'):
                             if isinstance(mo.get(k), list) and len(mo[k]) >= 2:
                                 cands.append((mo, k, 'gaussian', None))
+                    if isinstance(mo.get('ridge coordinates'), list) and isinstance(mo.get('spreading velocity'), (int, float)):
+                        npts = sum(len(r) for r in mo['ridge coordinates'] if isinstance(r, list))
+                        if npts >= 2:
+                            cands.append((mo, 'spreading velocity', mo.get('model'), npts))
                     if isinstance(mo.get('compositions'), list) and mo['compositions']:
                         n = len(mo['compositions'])
                         for k in SIBLINGS_EXACT:
@@ -260,6 +270,12 @@ def mutate_sibling(rng, doc):
     if not cands:
         return None, None
     o, k, mname, n = rng.choice(cands)
+    if k == 'spreading velocity':
+        # one value per ridge coordinate is the list form: give one too few or one too many (but not exactly one, which is valid)
+        v = o[k]
+        m = n + 1 if (n - 1 <= 1 or rng.random() < 0.5) else n - 1
+        o[k] = [[0, [[v] * m]]]
+        return d, '%s:%s' % (mname, k)
     lst = o[k]
     if k in SIBLINGS_ONE_OR_N:
         # neither one nor n entries
